@@ -21,3 +21,5 @@ func resetPool(maxWorkers int, idle time.Duration) {
 func poolWorkers() int                             { return timeout.VerifWatchers() }
 func pending() int                                 { return timeout.VerifPending() }
 func heapSane() bool                               { return timeout.VerifHeapSane() }
+
+func withPoolLock(f func()) { timeout.VerifWithLock(f) }
